@@ -191,6 +191,8 @@ def concrete_failures(desc, algo, policy, costs, flags, inplace=False):
         flags = set(flags) - {"opt", "empty"}
     finite = [H.form_value(costs, f) for f in forms]
     finite = [v for v in finite if v is not inf]
+    sup_ = is_super(algo)
+    finite_exists = bool(finite) or (not (sup_ and D.ORDERED[algo])) or bool(LB.root_orders(case.O, case.leafsyn, case.rootsyn))
     if not res:
         if forms and "empty" in flags:
             fails.append(("empty", "nothing returned although a valid solution exists"))
@@ -207,7 +209,7 @@ def concrete_failures(desc, algo, policy, costs, flags, inplace=False):
             continue
         v = H.form_value(costs, cnt)
         vals.append(v)
-        if v is inf and finite and "valid" in flags:
+        if v is inf and finite_exists and "valid" in flags:
             fails.append(("infinite", "returned solution has infinite cost"))
         elif "opt" in flags and v is not inf and v > best:
             fails.append(("suboptimal", f"returned cost {v} > optimum {best}"))
@@ -289,6 +291,7 @@ def explore(prop, desc, algo, policy, sym, fixed, flags, max_paths=20000, budget
     sols = None
     if "allset" in flags and policy == "all":
         sols = all_solutions(case, orc, algo)
+    finite_exists = (not (sup and ordered)) or bool(LB.root_orders(case.O, case.leafsyn, case.rootsyn))
 
     def viol(kind, text, model=None):
         if len(out["violations"]) >= 6:
@@ -336,7 +339,9 @@ def explore(prop, desc, algo, policy, sym, fixed, flags, max_paths=20000, budget
         good = [c for c in counts if c is not None]
         if not good:
             continue
-        anyfinite = any(H.form_z(ctx, costs, f) is not None for f in forms) or (isinstance(orc, PolyOracle) and costs["hgt"] is not inf)
+        # a finitely priced solution exists whenever a solution exists at all: the LCA mapping needs no transfer (ordered solvers: provided
+        # some root order is compatible with the leaves, which does not depend on the refinement)
+        anyfinite = any(H.form_z(ctx, costs, f) is not None for f in forms) or finite_exists
         for cnt in sorted(set(good)):
             finite_L = H.form_z(ctx, costs, cnt) is not None
             if "valid" in flags:
